@@ -492,6 +492,18 @@ fn comments_count_templates() -> Vec<(&'static str, Vec<(&'static str, usize)>)>
         ("repeat\n  -- note\nuntil a\nrepeat\nuntil b\n", vec![("empty loop block", 4)]),
         ("for i = 1, 2 do\n  while a do\n    --[[ x ]]\n  end\n  repeat\n    -- y\n  until b\n  for _ in f do\n  end\nend\n", vec![("empty loop block", 8)]),
         ("do\n  if a then\n    -- first\n  end\n  if b then\n  end\n  if c then\n    -- third\n  end\nend\n", vec![("empty if block", 5)]),
+        // the block's only comment shares a line with the keyword that opens it (it is that keyword's trailing trivia), or the
+        // whole statement is on one line
+        ("while not ready() do -- spin\nend\n", vec![]),
+        ("for _ in q do --[[ x ]] end\n", vec![]),
+        ("repeat -- poll\nuntil x\n", vec![]),
+        ("for i = 1, 2 do -- nothing yet\nend\nwhile a do end\n", vec![("empty loop block", 3)]),
+        ("if a then -- note\nend\n", vec![]),
+        ("if a then --[[ x ]] elseif b then else -- y\nend\n", vec![("empty elseif block", 1)]),
+        ("if a then\n  f()\nelse -- note\nend\n", vec![]),
+        // a comment after the block's closing keyword is outside the block
+        ("while a do\nend -- after\n", vec![("empty loop block", 1)]),
+        ("if a then\nend -- after\n", vec![("empty if block", 1)]),
     ]
 }
 
